@@ -120,6 +120,17 @@ def transform(data, tname, ctx, d, sel):
 def roundtrip(data, route, d):
     if route == "obj":
         return sut.create_mem(sut.parse_mem(data))
+    if route.startswith("cli:"):
+        r = route[4:]
+        path = sut.parse_cli(data, r.split("-")[0], r.endswith("-h"), d, name="rtc")
+        out = os.path.join(d, "rtc_out.suit")
+        if os.path.exists(out):
+            os.unlink(out)
+        res = sut.cli(["create", "--input-file", path, "--output-file", out], d)
+        if res.returncode != 0:
+            raise RuntimeError(f"CLI create exit {res.returncode}: {res.stderr[-200:]}")
+        with open(out, "rb") as fh:
+            return fh.read()
     fmt = route.split("-")[0]
     path = sut.parse_file(data, fmt, route.endswith("-h"), d, name="rt")
     out = os.path.join(d, "rt_out.suit")
@@ -233,6 +244,7 @@ def plan(ctx):
     for i in range(n):
         specs.append({"kind": "gen", "i": i, "n": per, "depth": 1 + (i % 3 == 0) + (1 if ctx.thorough and i % 6 == 0 else 0),
                       "risky": i % 7 == 3, "guard_off": i == 1})
+    specs.append({"kind": "gen", "i": 40, "n": per, "depth": 1, "risky": False, "cli": True})
     return specs
 
 
@@ -246,6 +258,9 @@ def run_shard(ctx, spec):
         st.integers(0, 1000),
     ).map(lambda t: {"desc": t[0], "transform": t[1], "sel": t[2]})
     n = spec["n"]
+    if spec.get("cli"):
+        n = 8 if not ctx.thorough else 120
+        strat = strat.map(lambda c: {**c, "routes": ["cli:yaml-h", "cli:json"]})
     if spec.get("guard_off"):
         # call logging (inspect.stack per node) makes every operation ~10x slower: fewer cases, two routes
         n = max(5, n // 12)
@@ -268,7 +283,7 @@ def replay(ctx, check, case):
 def finalize(ctx, m, ev):
     c = m["counters"]
     ev["coverage"]["excluded_known"] = {k.split(":")[1]: v for k, v in c.items() if k.startswith("excluded_known:")}
-    for need in ["transform:sign", "transform:sever", "transform:extract", "transform:cache", "route:yaml-h", "route:json-h", "depth:2", "f4free"]:
+    for need in ["transform:sign", "transform:sever", "transform:extract", "transform:cache", "route:yaml-h", "route:json-h", "route:cli:yaml-h", "depth:2", "f4free"]:
         if not c.get(need):
             raise boot.HarnessError(f"interesting class {need} is empty")
     bad = sum(v for k, v in c.items() if k.startswith("transform_failed") or k.startswith("unbuildable"))
